@@ -17,7 +17,7 @@ text run are written only by the constructor (runs are joined only by CellText::
 import re
 
 from ..common import guards, lib_reachable, short, where
-from ..exprs import closure_of, format_parts, is_const, mentions, strip
+from ..exprs import expand_combinators, simplify, closure_of, format_parts, is_const, mentions, strip
 from ..mirlib import Expr, Program, expr_str, op_place
 
 LEN_FN = re.compile(r"^alloc::string::String::len$|^core::str::<impl str>::len$")
@@ -514,7 +514,45 @@ def run(run):
         run.ok("C04.F4", "the NUL fillers are dropped when text is rendered", esc["where"])
     else:
         run.bad("C04.F4", "nul-rendered", esc["where"], "the escaping table does not drop NUL: filler columns would show up in the text")
+    # ---------------- F7 the character shown for a property character is the input character
+    f7(run)
     run.assume("span grouping decides which adjacent runs are merged into one text element; not decided")
+
+
+def f7(run):
+    """F7 [N]: a character that has a drawing meaning but no connection is shown as text through its table entry
+    (`cell_text(property.ch)` / `add_fragments_to_cell(cell, property.ch, ..)`), so "its characters are exactly the
+    input characters" needs `Property::from_char(c).ch == c`: every table entry is inserted under the character stored in
+    the property, and nothing else writes the tables."""
+    from .. import tae_conf
+    prog = run.prog
+    tae_conf.table_construction(run, "C04.F7")
+    # ... and the fallback really takes the character from the property found for the input character
+    pf = [p for p in prog.bodies if re.search(r"From<svgbob::buffer::property_buffer::PropertyBuffer<'p>> for svgbob::buffer::fragment_buffer::FragmentBuffer>::from$", p)]
+    fc = [p for p in prog.bodies if p.endswith("property::Property::from_char")]
+    if len(pf) != 1 or len(fc) != 1:
+        run.missing("C04.F7", "From<PropertyBuffer> for FragmentBuffer / Property::from_char")
+        return
+    r = [strip(simplify(expand_combinators(prog, x))) for x in Expr(prog, fc[0]).returns()]
+    alts = []
+    for x in r:
+        alts.extend(strip(a) for a in (x[1] if x[0] == "phi" else [x]))
+    gets = set()
+    okg = bool(alts)
+    for a in alts:
+        found = []
+        mentions(a, lambda z: z[0] == "call" and re.search(r"(BTreeMap|HashMap)(::)?<[^>]*>::get$", z[1]) and found.append(z) and False)
+        if not found and not (a[0] == "agg" and a[2] == "None"):
+            okg = False
+        for g in found:
+            tbl, key = strip(g[2][0]), strip(g[2][1])
+            gets.add(expr_str(tbl))
+            if key != ("param", 1, ()):
+                okg = False
+    if okg and gets:
+        run.ok("C04.F7", "Property::from_char(ch) only ever returns TABLE.get(&ch)", where(prog.bodies[fc[0]]), ", ".join(sorted(gets))[:120])
+    else:
+        run.bad("C04.F7", "from-char-key", where(prog.bodies[fc[0]]), "Property::from_char does not look the tables up under its own argument: %s" % " | ".join(expr_str(a)[:60] for a in alts))
 
 
 run_flow = run
